@@ -25,6 +25,7 @@ LEVEL_NOTE = ("Trusted: Lean kernel; axioms propext/Classical.choice/Quot.sound;
 TECHNIQUE = "Lean 4 proof (injective framing + canonical sorting) + byte-exact SHA-256 key correspondence + pair oracle on the real hasher"
 OBLIGATIONS = [
     "Grog.C09.key_eq_iff",
+    "Grog.C09.key_eq_state_or_collision",
     "Grog.C09.key_order_independent",
     "Grog.C09.enc_injective",
     "Grog.C09.encFiles_injective",
